@@ -69,14 +69,14 @@ def _replay_chunk(args):
     base, lines, const, seed, thorough = args
     out = []
     agg = {'cells': 0, 'nan': 0, 'fitted': 0, 'compares': 0, 'nontriv': 0, 'var_plain': 0, 'var_corrected': 0,
-           'var_fixed': 0}
+           'var_fixed': 0, 'method_sensitive': 0, 'select_sensitive': 0}
     for k, line in enumerate(lines):
         i = base + k
         rec = json.loads(line)
         flavour, mode, method, fitmode, ts = variant_of(i, seed, thorough)
         bad, stats = EP.replay_behaviour(rec, const, flavour, mode, method, fitmode, seed * 1000003 + i, theta_supplied=ts)
-        for q in agg:
-            agg[q] += stats.get(q, 0)
+        for q in set(agg) | {x for x in stats if x.startswith('dofP_')}:
+            agg[q] = agg.get(q, 0) + stats.get(q, 0)
         rep_draw = any(len(set(d)) < len(d) for s in rec['log'] for d in s['d'])
         if stats.get('cells', 0) > stats.get('nan', 0) and (rep_draw or EP.n_folds(rec['rc'], const['NR']) > 1):
             agg['nontriv'] += 1
@@ -164,7 +164,7 @@ def random_rc(rng, nr, nc, thorough):
         if rc['kR'] == 1 and rc['kP'] == 1:
             rc['nCv'] = 1
     else:
-        rc.update(bootR=bt[0], bootP=bt[1], cv='random', nCv=2, kR=int(rng.integers(0, 2)) if ur >= 2 else 0,
+        rc.update(bootR=bt[0], bootP=bt[1], cv='random', nCv=int(rng.integers(1, 4)), kR=int(rng.integers(0, 2)) if ur >= 2 else 0,
                   kP=3 if (up >= 6 and rng.integers(0, 2)) else 0)
     return rc
 
@@ -233,6 +233,14 @@ def corrupt(trace, kind):
                             if x['conds'] != list(reversed(x['conds'])):
                                 return t
         return None
+    if kind == 'fit-method':
+        for e in t:
+            if e['e'] == 'fit':
+                for v in e['fits']:
+                    for x in v:
+                        x['meth'] = 'cosine' if x['meth'] != 'cosine' else 'corr'
+                        return t
+        return None
     if kind == 'fit-rows':
         for e in t:
             if e['e'] == 'fit':
@@ -279,7 +287,7 @@ def validate(ctx, const, traces, name):
     return acc, rej, dofbad
 
 
-WHY_KEY = {'fit': 'b/fit-train', 'compare': 'a/compared-objects', 'ceiling': 'd/ceiling-object', 'stored': 'a/value',
+WHY_KEY = {'fit': 'b/fit-train', 'fit-method': 'b/fit-method', 'fit-keywords': 'b/fit-keywords', 'compare': 'a/compared-objects', 'ceiling': 'd/ceiling-object', 'stored': 'a/value',
            'nc-stored': 'd/ceiling-value'}
 MACHINERY_WHY = ('draw-not-admissible', 'sets-not-admissible', 'unknown-event')
 
@@ -297,10 +305,10 @@ def record_and_validate(ctx, const, n, thorough, label):
         results = [x for ch in pool.map(_run_chunk, [c for c in chunks if c]) for x in ch]
     results.sort(key=lambda x: x[0])
     traces, meta = [], []
-    stat = {'nan_samples': 0, 'ok_samples': 0, 'var_checked': 0, 'grouped': 0, 'unique': 0}
+    stat = {'nan_samples': 0, 'ok_samples': 0, 'var_checked': 0, 'grouped': 0, 'unique': 0, 'method_sensitive': 0, 'dof_cond_smaller': 0}
     for idx, rc, var, res in results:
         ctx.count(1)
-        for q in ('nan_samples', 'ok_samples'):
+        for q in ('nan_samples', 'ok_samples', 'method_sensitive', 'dof_cond_smaller'):
             stat[q] += res['stats'].get(q, 0)
         if res['stats'].get('var_kind') in ('plain', 'corrected', 'fixed'):
             stat['var_checked'] += 1
@@ -316,7 +324,7 @@ def record_and_validate(ctx, const, n, thorough, label):
         raise MachineryError('no execution could be recorded')
     # binding demonstration: corrupted copies of recorded traces must be rejected
     corrupted = []
-    for kind in ('stored', 'data-conds', 'fit-rows', 'nan'):
+    for kind in ('stored', 'data-conds', 'fit-rows', 'fit-method', 'nan'):
         for t in traces:
             c = corrupt(t, kind)
             if c is not None:
@@ -342,6 +350,13 @@ def record_and_validate(ctx, const, n, thorough, label):
                 ctx.violation(f'C04/trace/{why}/{name}', f'recorded event sequence is not a behaviour of the protocol: {why}',
                               {'const': const, 'rc': rc, 'variant': var, 'diag': d, 'trace': traces[t - 1][:12]})
             else:
+                if why == 'fit':
+                    ev_ = traces[t - 1][d['l'] - 1]
+                    meth = traces[t - 1][0]['rc']['method']
+                    if any(x['meth'] != meth for v in ev_['fits'] for x in v):
+                        why = 'fit-method'
+                    elif any(x['desc'] != rc['byP'] or x['kw'] for v in ev_['fits'] for x in v):
+                        why = 'fit-keywords'
                 ctx.violation(f'C04/{WHY_KEY.get(why, why)}/{name}',
                               f'trace validation: event {d.get("l")} not explained by the protocol ({why})',
                               {'const': const, 'rc': rc, 'variant': var, 'diag': d,
@@ -409,15 +424,16 @@ def run(ctx):
                        'pool_rdm and rdm.compare are used as given (C03 / C07); C04 decides WHICH objects they are applied to',
                        'too small = the thresholds of the routines (fewer than 3 distinct condition groups; fewer RDM groups '
                        'than folds; fewer than 3 x k_pattern condition groups; fold with <= 2 conditions)',
-                       'eval_dual_bootstrap_random is exercised with n_cv = 2 and use_correction = True only (everything else '
-                       'raises, reported separately)']
+                       'a fitter called without method= is taken to fit for the library default (cosine)']
     thorough = ctx.tier == 'thorough'
     if thorough:
         runs = [('qa', 3, 4, 1, 'QuickA', 1), ('qb', 3, 3, 2, 'QuickB', 1), ('qc', 3, 6, 1, 'QuickC', 1),
+                ('qd', 5, 4, 1, 'QuickD', 1),
                 ('ta', 3, 4, 2, 'ThorA', 8), ('tb', 3, 4, 2, 'ThorB', 12), ('tc', 3, 4, 1, 'ThorC', 12),
                 ('td', 4, 6, 1, 'ThorD', 3)]
     else:
-        runs = [('qa', 3, 4, 1, 'QuickA', 4), ('qb', 3, 3, 2, 'QuickB', 4), ('qc', 3, 6, 1, 'QuickC', 1)]
+        runs = [('qa', 3, 4, 1, 'QuickA', 5), ('qb', 3, 3, 2, 'QuickB', 5), ('qc', 3, 6, 1, 'QuickC', 1),
+                ('qd', 5, 4, 1, 'QuickD', 2)]
     ctx.exhaustive = False
     total = 0
     tot = {}
@@ -449,9 +465,18 @@ def run(ctx):
         raise MachineryError(f'vacuous replay: {tot}')
     if not tot.get('var_plain') or not tot.get('var_fixed'):
         raise MachineryError(f'vacuous variance check: {tot}')
+    # dof: for every routine that resamples both axes the condition axis was the smaller factor in some replay
+    for nm in ('eval_bootstrap', 'bootstrap_crossval', 'eval_dual_bootstrap', 'eval_dual_bootstrap_random'):
+        if not tot.get('dofP_' + nm):
+            raise MachineryError(f'vacuous dof rule: no replay of {nm} with fewer condition groups than RDM groups')
+    # the cv routines were driven with non-default methods on models whose fitted parameters depend on the
+    # method (verified by refitting for cosine), incl. a selection model choosing another candidate
+    if not tot.get('method_sensitive') or not tot.get('select_sensitive'):
+        raise MachineryError(f'vacuous method binding: no fold whose fit depends on the comparison method: {tot}')
     # implementation -> specification
-    groups = [((3, 4), 90), ((3, 6), 60), ((3, 8), 6)] if not thorough else \
-        [((3, 4), 400), ((3, 6), 250), ((4, 6), 250), ((5, 5), 200), ((3, 8), 36)]
+    # (5, 4): more RDM groups than condition groups -- the smaller factor of the dof rule is the condition axis
+    groups = [((3, 4), 70), ((5, 4), 30), ((3, 6), 50), ((3, 8), 6)] if not thorough else \
+        [((3, 4), 350), ((5, 4), 150), ((3, 6), 250), ((4, 6), 250), ((5, 5), 150), ((3, 8), 36)]
     nt = 0
     st = {}
     for (nr, nc), n in groups:
@@ -462,6 +487,6 @@ def run(ctx):
     ctx.extra['recorded_executions'] = nt
     ctx.extra['recorded_stats'] = st
     if not st.get('nan_samples') or not st.get('ok_samples') or not st.get('var_plain') or not st.get('var_corrected') \
-            or not st.get('grouped') or not st.get('unique'):
+            or not st.get('grouped') or not st.get('unique') or not st.get('method_sensitive') or not st.get('dof_cond_smaller'):
         raise MachineryError(f'vacuous recorded executions: {st}')
     probes(ctx)
